@@ -33,7 +33,8 @@ STAGES = {
             S("mixed", "^TestC09Mixed$", quick=3000, thorough=30000, shards=(2, 16))],
     "C10": [S("programs", "^TestC10$", quick=2500, thorough=15000, shards=(4, 16))],
     "C11": [S("requests", "^TestC11$", quick=6000, thorough=40000, shards=(2, 16)),
-            S("server", "^TestC11Server$", quick=400, thorough=4000, shards=(1, 4))],
+            S("server", "^TestC11Server$", quick=400, thorough=4000, shards=(1, 4)),
+            S("fuzz", "^$", tiers=("thorough",), shards=(1, 1), fuzz={"target": "^FuzzC11$", "time": {"quick": "10s", "thorough": "120s"}}, timeout=("10m", "30m"))],
     "C12": [S("origins", "^TestC12$", quick=30000, thorough=200000, shards=(2, 16)),
             S("fuzz", "^$", tiers=("thorough",), shards=(1, 1), fuzz={"target": "^FuzzC12$", "time": {"quick": "10s", "thorough": "120s"}}, timeout=("10m", "30m"))],
     "C13": [S("responses", "^TestC13$", quick=8000, thorough=40000, shards=(2, 16)),
@@ -56,7 +57,8 @@ STAGES = {
     "C02": [S("programs", "^TestC02$", quick=1500, thorough=6000, shards=(4, 16))],
     "C03": [S("regress", "^TestC03Regress$"),
             S("structured", "^TestC03$", quick=1500, thorough=10000, shards=(4, 16)),
-            S("raw", "^TestC03Raw$", quick=8000, thorough=60000, shards=(4, 16))],
+            S("raw", "^TestC03Raw$", quick=8000, thorough=60000, shards=(4, 16)),
+            S("fuzz", "^$", tiers=("thorough",), shards=(1, 1), fuzz={"target": "^FuzzC03$", "time": {"quick": "10s", "thorough": "180s"}}, timeout=("10m", "30m"))],
     "C04": [S("cuts", "^TestC04$", quick=40, thorough=60, shards=(6, 16), timeout=("15m", "120m"), shrinktime="60s")],
     "C05": [S("concurrent", "^TestC05$", quick=150, thorough=2500, shards=(6, 16), timeout=("15m", "90m")),
             S("concurrent-race", "^TestC05$", quick=40, thorough=800, shards=(4, 16), race=True, timeout=("15m", "90m"))],
